@@ -6,7 +6,7 @@
 From Coq Require Import List ZArith NArith Bool Arith.
 From Gluon Require Import Base.DecBytes Gen.FactsPartial Model.Partial Model.Rfc822Split Model.Rfc822Header
   Model.Rfc822Sections Proofs.PartialProofs Proofs.LiteralFrameProofs Proofs.Rfc822HeaderProofs Proofs.Rfc822SectionsProofs
-  Proofs.Rfc822SpliceProofs.
+  Proofs.Rfc822SpliceProofs Gen.FactsCreatedChunk.
 Import ListNotations.
 
 (* A partial <o.n> is exactly that slice: for every literal and every offset / count the command parser can deliver
@@ -44,6 +44,17 @@ Theorem C13_fetch_header_plus_text : forall ctype_of lit,
 Proof. exact fetch_header_plus_text. Qed.
 Print Assumptions C13_fetch_header_plus_text.
 
+(* a message whose own type is message/rfc822 and whose embedded message is not a multipart (code after
+   notes/C13-fix-5.diff): its single part 1 is its own body, as BODYSTRUCTURE describes it *)
+Theorem C13_message_root_part1 : forall ctype_of lit,
+  ctype_of (sect_header lit (root_sect lit)) = CtMessage ->
+  direct_children ctype_of (S (length lit)) lit (root_sect lit) = Some [] ->
+  fetch_section ctype_of lit [1] SpBody = fetch_section ctype_of lit [] SpText /\
+  fetch_section ctype_of lit [1] SpMime = Some (sect_header lit (root_sect lit)) /\
+  fetch_section ctype_of lit [2] SpBody = None.
+Proof. exact message_root_part1. Qed.
+Print Assumptions C13_message_root_part1.
+
 Theorem C13_section_header_plus_body : forall ctype_of lit s path,
   part_of ctype_of lit (root_sect lit) path = Some s ->
   sect_header lit s ++ sect_body lit s = sect_literal lit s.
@@ -59,6 +70,23 @@ Theorem C13_id_header_inserted : forall lit key val es,
           ++ skipn (first_field_offset (split_header lit) es) lit).
 Proof. exact set_header_inserts_one_line. Qed.
 Print Assumptions C13_id_header_inserted.
+
+(* ... in BOTH branches (a header field exists / the header has no field at all, e.g. the message starts with the blank
+   line or its header has only colon-less lines): every other byte is preserved, the result is the literal with one line
+   put in at an offset inside the header part, and its length is the old length plus the length of that line *)
+Theorem C13_id_header_preserves_every_other_byte : forall lit key val out,
+  set_header_value lit key val = Some out ->
+  exists k, k <= length (split_header lit) /\
+            out = firstn k lit ++ join_line key val ++ skipn k lit /\
+            length out = length lit + length (join_line key val).
+Proof. exact set_header_preserves. Qed.
+Print Assumptions C13_id_header_preserves_every_other_byte.
+
+(* T1 (translator/facts_createdchunk.go): applyMessagesCreated stores literals chunk by chunk (db.ChunkLimit); inside the
+   chunk loop only the chunk is indexed with the chunk-local index, the whole list is not mentioned *)
+Theorem C13_created_messages_are_stored_from_their_chunk : created_chunk_loop_uses_only_chunk = true.
+Proof. exact (eq_refl true). Qed.
+Print Assumptions C13_created_messages_are_stored_from_their_chunk.
 
 (* ... and erasing it gives back the appended message byte for byte, whenever the message has a header field
    (APPEND requires Date and From).  key: non-empty printable ASCII without ':' ; value: no CR / LF. *)
